@@ -957,7 +957,7 @@ class Message(ABC):
             value = self.__raw_get(name)
             if value is not PLACEHOLDER:
                 kwargs[name] = deepcopy(value)
-        return self.__class__(**kwargs)  # type: ignore
+        return self.__copy_state(self.__class__(**kwargs))  # type: ignore
 
     def __copy__(self: T, _: Any = {}) -> T:
         kwargs = {}
@@ -965,7 +965,16 @@ class Message(ABC):
             value = self.__raw_get(name)
             if value is not PLACEHOLDER:
                 kwargs[name] = value
-        return self.__class__(**kwargs)  # type: ignore
+        return self.__copy_state(self.__class__(**kwargs))  # type: ignore
+
+    def __copy_state(self: T, new: T) -> T:
+        # The constructor derives presence from its arguments, a copy has to keep
+        # what this message knows: unknown fields, whether it was set/received
+        # and which member of each oneof group is the selected one.
+        new.__dict__["_unknown_fields"] = self._unknown_fields
+        new.__dict__["_serialized_on_wire"] = self._serialized_on_wire
+        new.__dict__["_group_current"] = dict(self._group_current)
+        return new
 
     @classproperty
     def _betterproto(cls: type[Self]) -> ProtoClassMetadata:  # type: ignore
